@@ -19,7 +19,8 @@ use std::task::{Context, Poll, Wake, Waker};
 #[derive(Clone, Debug)]
 pub enum Ev {
   Call { tid: usize, op: Op },
-  Ret { tid: usize, res: String },
+  /// `aux`: not printed; for `wakes`/`drop`/`dropfut`: wake counts of the OTHER live unresolved futures (`f1=0,f2=1`)
+  Ret { tid: usize, res: String, aux: String },
   Panic { tid: usize, msg: String },
 }
 
@@ -133,6 +134,17 @@ unsafe impl Send for SendEnv {}
 impl Env {
   fn busy(&self, h: &str) -> bool {
     self.futs.values().any(|f| f.handle == h && f.fut.is_some())
+  }
+
+  /// wake counts of live unresolved futures other than `except`
+  pub fn fut_snapshot(&self, except: &str) -> String {
+    self
+      .futs
+      .iter()
+      .filter(|(n, s)| n.as_str() != except && s.fut.is_some())
+      .map(|(n, s)| format!("{}={}", n, s.cw.wakes.load(Ordering::Relaxed)))
+      .collect::<Vec<_>>()
+      .join(",")
   }
 
   fn drop_fut(slot: FutSlot) -> String {
@@ -302,8 +314,9 @@ fn run_ops(env: &mut Env, sh: &Arc<Shared>, tid: usize, ops: &[Op]) -> bool {
       sh.push(Ev::Call { tid, op: op.clone() });
       sh.stats[tid].polls.store(0, Ordering::Relaxed);
       sh.stats[tid].wakes.store(0, Ordering::Relaxed);
+      let aux = if matches!(op.name(), "wakes" | "drop" | "dropfut") { env.fut_snapshot(op.arg(1)) } else { String::new() };
       let res = env.exec(op);
-      sh.push(Ev::Ret { tid, res });
+      sh.push(Ev::Ret { tid, res, aux });
     }
   }));
   match r {
